@@ -1,6 +1,7 @@
 import GodiModel.Hyp
 import GodiProofs.Container.BuildLedger
 import GodiProofs.Container.BuildOrder
+import GodiProofs.Container.NoCaptive
 /-! The executable hypothesis checkers are sound: `failedHyps descs = []` gives every structural
 hypothesis the container theorems assume. -/
 namespace Godi.Container
@@ -92,16 +93,22 @@ theorem instDistinct_of_check {descs : List Desc} (h : instDistinctB descs = tru
 /-- THE TIE OF THE HYPOTHESES: when the driver's `p hyp` answers `ok` for the descriptors dumped from
 godi's collection, every structural hypothesis of the container theorems holds for them -/
 theorem hyps_of_check {descs : List Desc} (h : failedHyps descs = []) :
-    WF descs ∧ RegWF descs ∧ InstSingleton descs ∧ InstDistinct descs ∧ KeysDistinct descs ∧ ServiceUnique descs := by
+    WF descs ∧ RegWF descs ∧ InstSingleton descs ∧ InstDistinct descs ∧ KeysDistinct descs ∧ ServiceUnique descs ∧
+    LongCtor descs 0 := by
   unfold failedHyps at h
   have e : ∀ (b : Bool) (s : String), (if b then ([] : List String) else [s]) = [] → b = true := by
     intro b s hb; cases b <;> simp at hb ⊢
   simp only [List.append_eq_nil_iff] at h
-  obtain ⟨⟨⟨⟨⟨⟨⟨⟨⟨⟨a1, a2⟩, a3⟩, a4⟩, a5⟩, a6⟩, a7⟩, a8⟩, a9⟩, a10⟩, a11⟩ := h
+  obtain ⟨⟨⟨⟨⟨⟨⟨⟨⟨⟨⟨a1, a2⟩, a3⟩, a4⟩, a5⟩, a6⟩, a7⟩, a8⟩, a9⟩, a10⟩, a11⟩, a12⟩ := h
   have rw' := regWF_of_check (e _ _ a3) (e _ _ a4) (e _ _ a5) (e _ _ a6) (e _ _ a7) (e _ _ a8)
   exact ⟨wf_of_check (e _ _ a1) (e _ _ a2), rw',
     instSingleton_of_check (e _ _ a9), instDistinct_of_check (e _ _ a10),
     by have := e _ _ a11; unfold keysDistinctB at this; unfold KeysDistinct; exact of_decide_eq_true this,
-    serviceUnique_of_identUnique rw'.identUnique⟩
+    serviceUnique_of_identUnique rw'.identUnique, by
+      have := e _ _ a12
+      unfold ctorZeroB at this
+      intro d hd hc hs
+      have := (List.all_eq_true.1 this) d hd
+      simp [hc, hs] at this⟩
 
 end Godi.Container
